@@ -129,6 +129,23 @@ def registry(pid: str) -> tuple[list[str], int]:
     return names, examples
 
 
+def leancheck(pid: str) -> tuple[bool, str, int]:
+    """thorough tier: the toolchain's independent re-checker replays the compiled declarations of Props/Cxx and of every module of this
+    library it imports (transitively) through the kernel once more"""
+    seen, todo = [], [f"MazeVerif.Props.{pid}"]
+    while todo:
+        m = todo.pop()
+        if m in seen: continue
+        f = LEAN / (m.replace(".", "/") + ".lean")
+        if not f.exists(): continue
+        seen.append(m)
+        for line in f.read_text().splitlines():
+            mm = re.match(r"\s*import\s+(MazeVerif\.[\w.]+)", line)
+            if mm: todo.append(mm.group(1))
+    rc, out, err = sh(["lake", "env", "leanchecker", *seen], cwd=LEAN, timeout=3600)
+    return rc == 0, (out + err)[-1500:], len(seen)
+
+
 def audit(pid: str, workdir: Path) -> dict:
     """`#print axioms` for every property theorem; returns {name: [axioms]} and failures"""
     names, examples = registry(pid)
